@@ -22,6 +22,39 @@ CHECKS = {
             "TLC trace validation of count observations against WalrusAPI", "7 C15"),
 }
 
+CHECKS.update({
+    "C04": ("model_checking", "Contract: a failed append/batch leaves log, cursors and counts unchanged and a successful batch extends the log contiguously (TLC theorem PropAppendOnly/InvDelivered); "
+            "real-engine executions with every rejection cause (over-cap, over-bytes, oversized entry, over-long topic, empty batch) and injected I/O failures (failed/short io_uring completions, failed block write, "
+            "failed fsync, failed file creation) at varying positions, followed by appends, reads and reopens, are validated by TLC; blamed on C04 only if the twin execution without the failing calls is accepted.",
+            "TLC trace validation against WalrusAPI + fault injection through cfg hooks + twin execution", "7 C04"),
+    "C06": ("model_checking", "Contract Restart action (StrictlyAtOnce: identity; AtLeastOnce: resume within lb..cur, resolved lazily by the next read); real-engine histories with 1..n reopens in the same and in "
+            "fresh processes, clock moved forward/0/backward, validated by TLC; blamed on C06 only if the twin history without reopens is accepted.",
+            "TLC trace validation against WalrusAPI.Restart + twin execution without restarts", "7 C06"),
+    "C12": ("model_checking", "Every reclamation request the engine raises (hook at the single send to the deletion channel) is checked by TLC against WalrusAPI.Reclaim: all acknowledged entries stored in that file "
+            "are durably consumed; histories fill files in the tiny geometry with consuming reads, peeks, repeated empty polls and in-process reopens; thorough also waits for the real unlink and re-reads/reopens.",
+            "TLC trace validation of reclaim events against WalrusAPI.Reclaim", "7 C12"),
+    "C13": ("model_checking", "Topics of the contract are (instance, name) pairs with per-instance Restart; 2-3 live instances in one process with colliding block ids are driven with interleaved operations and "
+            "every instance's results, counts, markers and reclamation requests are validated by TLC against its own contract state.",
+            "TLC trace validation against per-instance WalrusAPI state", "7 C13"),
+    "C16": ("model_checking", "Every behaviour is executed once per backend (fd/io_uring and mmap) in separate processes; the two API traces must be equal event by event (results, error kinds, entries, counts) and both are validated by TLC against WalrusAPI.",
+            "differential execution fd vs mmap + TLC trace validation", "7 C16"),
+    "C17": ("model_checking", "Contract: Append sets dirty, Mark sets the state, Restart preserves it; histories of appends/marks/is_clean/reopen with reopen 0, 1, 20 ms after the last call (same and new process) validated by TLC.",
+            "TLC trace validation of marker observations against WalrusAPI", "7 C17"),
+    "C18": ("model_checking", "TLC checks segment numbering, open-segment leader, cumulative offset = sum, totality of Apply and 'sealed count/leader never change' on every state of spec Metadata reachable by command "
+            "sequences of depth <=5 (thorough 6) over 2 topics x 3 nodes x counts {0,1,2} + undecodable; every (state, command) pair is replayed on the real Metadata::apply (unmodified metadata.rs over a bincode shim) with returned "
+            "value and full state compared; random long sequences are validated step by step by TLC (Trace_Metadata); u64-extreme sequences and arbitrary byte strings must not panic.",
+            "TLC model checking of Metadata + exhaustive spec->impl transition replay + TLC trace validation", "7 C18"),
+    "C24": ("model_checking", "TLC runs the design-level server loop of client.rs on every client stream of <=6 (thorough 8) symbols and checks it against the contract (one response per frame, in order, ERR classes, payload round trip); "
+            "every stream plus seeded random long streams is instantiated as bytes and sent to the real start_client_listener (unmodified client.rs over a deterministic tokio shim with in-memory TCP); responses must equal the contract's list.",
+            "TLC refinement check (ClientProto) + spec->impl replay of every enumerated stream class on the unmodified client.rs", "7 C24"),
+    "C25": ("model_checking", "TLC checks Parse(Key(t,n)) = <<t,n>> and pairwise distinct keys for all topics of length <=4 (thorough 5) over {t,_,s,x,0,1} x segment numbers in spec WalKey; every enumerated tuple is compared with the real "
+            "wal_key/parse_wal_key and the (topic, segment) the real forward_append derives; seeded random topics x u64 extremes are checked for round trip and distinctness.",
+            "TLC exhaustive check of WalKey + spec->impl replay on the unmodified types.rs/internal.rs", "7 C25"),
+})
+
+DIST_NOTE = ("Shim world: the distributed-walrus/octopii files are compiled unmodified via #[path] against local shim crates (tokio: deterministic executor, bincode: 1.3 layout, "
+             "octopii/openraft: traits and data types only); behaviour that depends on the real crates is outside what is explored.")
+
 NOT_YET = {}
 
 NA = {
@@ -41,8 +74,9 @@ def write(extra_na=None):
             "replay_cmd_template": "./check %s --replay {path}" % pid,
             "engine": "tlc+engine-driver",
             "level_claimed": {"category": cat, "text": text, "design_ref": "DESIGN.md section " + ref},
-            "level_note": "Trusted: TLC, the contract spec as written, the harness's payload<->key mapping, the cfg(walrus_verif) hooks being inert; "
-                          "verdicts cover the executions explored, the contract-level theorems are bounded (small constants).",
+            "level_note": (DIST_NOTE if pid in ("C18", "C20", "C21", "C22", "C23", "C24", "C25") else
+                           "Trusted: TLC, the contract spec as written, the harness's payload<->key mapping, the cfg(walrus_verif) hooks being inert; "
+                           "verdicts cover the executions explored, the contract-level theorems are bounded (small constants)."),
             "technique": tech,
         })
     na = dict(NA)
